@@ -193,6 +193,27 @@ theorem non_members_unchanged_by_sequence (evs : List CEv) (outs : List COut) (l
     rw [memberKey_of_seqId hs]
     simp [hnz ia hia]
 
+/-- **nothing else is exported**: every output is either an unchanged event that is not part of a
+sequence, or one of the output slices that `hull_spec` speaks about (it carries the uid of a part of
+some key `k`).  With `hull_spec` (exactly one per key) this fixes the output completely. -/
+theorem outputs_classified (evs : List CEv) (outs : List COut) (left : Nat)
+    (h : summarize evs = .ok (outs, left)) :
+    ∀ o ∈ outs, (∃ ev ∈ evs, memberKey ev = none ∧ o = COut.pass ev) ∨
+      (∃ k, partsOf k evs ≠ [] ∧ o ∈ outsOfKey k evs outs) := by
+  have hr := summarize_ok_no_raise h
+  rw [summarize_eq_spec evs hr] at h
+  injection h with h; injection h with h1 h2
+  subst h1
+  intro o ho
+  rcases specOut_classified evs o ho with h1 | ⟨ev, hev, k, d, hm, rfl⟩
+  · exact Or.inl h1
+  · right
+    have hp : ev ∈ partsOf k evs := mem_partsOf.mpr ⟨hev, hm⟩
+    refine ⟨k, List.ne_nil_of_mem hp, ?_⟩
+    unfold outsOfKey
+    refine List.mem_filter.mpr ⟨ho, ?_⟩
+    exact List.any_eq_true.mpr ⟨ev, hp, by simp [mergedEv, COut.uid]⟩
+
 /-- **summarize_total** (the balance between the two phases): if every SenRdma slice carries a
 jobhash, the run does not raise — application finds every key that it looks up — and no sequence
 is left behind in the context. -/
